@@ -11,7 +11,8 @@ RULE = ("every hit (a,b) returned by a registry entry on a text T is compared, a
         "original.lower() == T[a:b].lower(), all enclosing nodes are undecoded contexts, type/value/obfuscation unchanged. "
         "Workloads: default registry on nested-indicator (k=1..6 properly nested raw indicators at positive offsets), "
         "decoded-inside-context, layered, URL, mutated and soup inputs; synthetic registries (complete small scopes + random "
-        "with nesting up to 8). distinct_nontrivial = distinct cases with a non-empty result.")
+        "with nesting up to 8). 'synth-wide' shard: synthetic registries with 300..25000 one-byte decodable fragments in one text, each three decodings deep, k = 1..5 (up to 75001 searches per scan: per-scan / per-scanner budgets); random registries list the same decoder object twice 12 % of the time. "
+        "distinct_nontrivial = distinct cases with a non-empty result.")
 ASSUMPTIONS = ["hits absent from the tree are only counted here (C05/C06 judge absences)",
                "hits whose decoder snapshot is out of range are skipped and counted (C03's business)"]
 EXPECTED_WALL = {"quick": 60, "thorough": 500}
